@@ -128,6 +128,8 @@ def run(repo, chk):
 
     from .shared import routing_obligations
     routing_obligations(repo, chk, "R04.4", "offer")
+    from .shared import fork_own_list_obligations
+    fork_own_list_obligations(repo, chk, "R04.6", "an override activated through `ov.tweaking(..)` / `ov.rewriting(..)` ends with its block; it is not remembered by `ov` and by every later fork")
     from .shared import activation_integrity_obligations
     activation_integrity_obligations(repo, chk, "R04.4", "overriding probes (an override whose function was untooled by someone else's refused activation silently stops substituting)")
     from .shared import call_aggregates
